@@ -145,5 +145,6 @@ PROPS['C18']['rule'] = E2E_RULE + '; every generated history is run again with s
 PROPS['C19']['e2e'].append(dict(profile='inval', n_quick=500, n_thorough=5000))
 
 PROPS['C01']['engines'] = ['e2e', 'realclock']
+PROPS['C11']['engines'] = PROPS['C11'].get('engines', ['e2e']) + ['realclock']
 PROPS['C01']['rule'] += ('; plus TestRealClock: responses received with a saturating Age (2^63 ns and more) and a stale-while-revalidate / max-age / request max-stale / min-fresh '
                          'combination, requested again with the real clock (between two clock readings of one RoundTrip a few nanoseconds pass, which inside the virtual-time bubble they do not)')
